@@ -464,7 +464,7 @@ class Cfg:
         g("ind_b", 15 - t.weighted([6] + [1] * 15, "ind_b"))
         g("shell", ["history", "plain"][t.choose(2, "shell")])
         g("vfs", ["native", "mem"][t.weighted([3, 1], "vfs")])
-        g("msgs", t.weighted([6, 1, 1, 1, 1, 1, 1], "msgs"))
+        g("msgs", t.weighted([6, 1, 1, 1, 1, 1, 1, 1, 1], "msgs"))
         g("lat_ms", [5, 1, 20, 50][t.choose(4, "lat_ms")])
         g("poll_ms", [50, 10, 100, 200][t.choose(4, "poll_ms")])
         g("seq_start", [0, 1, 254, 255, 65534][t.choose(5, "seq_start")])
